@@ -38,7 +38,11 @@ THEOREMS = [
     "Aio.C02.response_roundtrip_chunked",
     "Aio.C02.failed_source_no_terminator",
 ]
-RULE = ("(early responses: handler returns 401/403/413 without reading the body or after reading a prefix, uploads of 3 KB-300 KB "
+RULE = ("(content-coded chunked bodies {raw deflate, zlib, gzip} x both directions x segmentations {whole, cut behind every "
+        "chunk-size line, at every chunk edge, k bytes, random, cuts near the start of the body}; Expect: 100-continue x body source "
+        "{async generator (unknown size), bytes, BytesIO} x expect handler answer {100, 401, 403, 417, raised 417} x gap x connector "
+        "limit, followed by a second request; keep-alive conversations of 45+ exchanges on one connection with request bodies that span "
+        "segments / use expect100 / are streamed with gaps.) (early responses: handler returns 401/403/413 without reading the body or after reading a prefix, uploads of 3 KB-300 KB "
         "in many segments, Content-Length and chunked, bytes and async-generator sources, lingering_time default and 0, followed by a "
         "non-idempotent request on the same session; size-limit lines cut between CR and LF.) (flow scenarios, run first: small read buffers on the receiving side x chunked/Content-Length bodies above the high-water "
         "mark x segmentations cutting chunks mid-data (targeted: pause in the middle of a chunk, rest of the message in one read; random "
@@ -80,6 +84,11 @@ TRUSTED_BASE = [
     "(their output is taken as 'what was sent')",
 ]
 ASSUMPTIONS = [
+    "codec scenarios: 'deflate' bodies are sent both zlib-wrapped (RFC 1950) and bare (RFC 1951, which aiohttp's receiver accepts by "
+    "sniffing the first byte), gzip via gzip.compress; the outcome for the same wire bytes must not depend on the segmentation",
+    "expect scenarios: a route-level expect handler may answer with a final response instead of 100 Continue; the request after it "
+    "on the same session must be answered correctly whatever the client decides about the connection",
+    "convo scenarios: 45 (thorough: up to 100) sequential exchanges through a limit=1 connector must all complete on one connection",
     "early-response scenarios (handler answers without reading the whole body while the upload is in flight): the client always "
     "finishes sending within lingering_time (virtual time); a response that announces keep-alive (HTTP/1.1, no Connection: close) "
     "which the client accepts must leave the connection usable for the next request; with the non-default lingering_time=0 the "
